@@ -1175,8 +1175,9 @@ func (g *GuardEngine) flatAtoms(fd *FuncDecl, onPath map[*FuncDecl]bool, depth i
 type Inventory map[string]*InvCount
 
 type InvCount struct {
-	Total int `json:"n"`
-	Must  int `json:"must"`
+	Total int      `json:"n"`
+	Must  int      `json:"must"`
+	Args  []string `json:"args,omitempty"` // operand shapes of each occurrence (sorted)
 }
 
 func (g *GuardEngine) InventoryOf(fd *FuncDecl) Inventory {
@@ -1192,6 +1193,12 @@ func (g *GuardEngine) InventoryOf(fd *FuncDecl) Inventory {
 		if a.Must {
 			c.Must++
 		}
+		if as := a.ArgSig(); as != "" {
+			c.Args = append(c.Args, as)
+		}
+	}
+	for _, c := range inv {
+		sort.Strings(c.Args)
 	}
 	return inv
 }
